@@ -639,6 +639,45 @@ func registerStringIntercepts() {
 			parts, _ := ropeOf(a[0])
 			return normRope(i.W, i.W.lowerRope(parts)), true
 		}),
+		"strings.TrimSpace": sym2(func(i *interpreter, a []value) (value, bool) {
+			// symbolic atoms are printable ASCII, so the only white space they can hold is ' ':
+			// s = p ++ r ++ q with p, q in ' '* and r neither starting nor ending with ' '
+			sx, ok := a[0].(*symStr)
+			if !ok {
+				return nil, false
+			}
+			w := i.W
+			if atomsForbid(sx.parts, ' ') {
+				allLitOK := true
+				for _, p := range sx.parts {
+					if p.kind == rkLit && strings.TrimSpace(p.lit) != p.lit {
+						allLitOK = false
+					}
+				}
+				if allLitOK {
+					return sx, true
+				}
+			}
+			mkInternal := func(tag string) *term {
+				w.lowSeq++
+				t := w.declare(fmt.Sprintf("%s!%d", tag, w.lowSeq), sStr)
+				w.inputs = w.inputs[:len(w.inputs)-1]
+				return t
+			}
+			p, r, q := mkInternal("tsp"), mkInternal("tsr"), mkInternal("tsq")
+			sp := mk("re.*", sRegLan, mk("str.to_re", sRegLan, mkStrConst(" ")))
+			w.assertPC(tEq(sx.term(), mk("str.++", sStr, p, r, q)))
+			w.assertPC(mk("str.in_re", sBool, p, sp))
+			w.assertPC(mk("str.in_re", sBool, q, sp))
+			w.assertPC(tNot(mk("str.prefixof", sBool, mkStrConst(" "), r)))
+			w.assertPC(tNot(mk("str.suffixof", sBool, mkStrConst(" "), r)))
+			ln := strLen(w, sx).(*symInt)
+			maxLen := 0
+			if ln.hi != nil && ln.hi.IsInt64() {
+				maxLen = int(ln.hi.Int64())
+			}
+			return &symStr{parts: []ropePart{{kind: rkAtom, t: r, forbid: "", maxLen: maxLen}}, w: w}, true
+		}),
 		"strings.EqualFold": sym2(func(i *interpreter, a []value) (value, bool) {
 			// ASCII case folding (atoms are printable ASCII)
 			x, _ := ropeOf(a[0])
